@@ -221,8 +221,9 @@ def parse_operand(o):
 
 
 class Machine:
-    def __init__(self, raw_rsp=False):
+    def __init__(self, raw_rsp=False, ret_x87=False):
         self.raw_rsp = raw_rsp      # treat %rsp as an ordinary register (for code that computes with it, e.g. alloca)
+        self.ret_x87 = ret_x87      # the callee of the emitted call returns its value in %st(0) (long double / class X87 aggregate)
 
     # ---- operand access ---------------------------------------------------
     def addr(self, s, op):
@@ -687,6 +688,8 @@ class Machine:
         s.reg['rax'] = ('ret', 'rax', n); s.reg['rdx'] = ('ret', 'rdx', n)
         for x in range(16):
             s.xmm[x] = ('retx', x, n) if x < 2 else ('clobber', 'xmm%d' % x)
+        if self.ret_x87:
+            s.st.append(('retst', n))
 
     def i_lock_cmpxchg(self, s, ops):
         self._cmpxchg(s, ops, True)
